@@ -87,7 +87,7 @@ Qed.
 Lemma wgi_mono i : gmono_at i.
 Proof.
   induction i as [i Hn | r c a b Ha Hb] using instr_ind'.
-  - intros Q Q' lo HQ H. destruct i as [m|m|a|a|a| |timed|tt f|r c x y|timed| | |]; try destruct a;
+  - intros Q Q' lo HQ H. destruct i as [m|m|a|a|a| |timed|tt f|r c x y|timed| | | |rr]; try destruct a;
       try (cbn [wgi] in *; solve [auto]); try contradiction.
     all: cbn [wgi] in *.
     all: try (destruct H as [H1 [H2 H3]]; split; [exact H1 | split; [exact H2 | apply HQ; exact H3]]).
@@ -266,12 +266,14 @@ Ltac gend :=
 
 Lemma all_calls_wg c : wgl (code_of c) GEnd lo0.
 Proof.
-  destruct c; cbn [code_of]; cbv beta iota delta [GenQConc.dqn_dtor_decrement_under_mutex].
+  destruct c; cbn [code_of]; unfold processif_code, processuntil_code, putback; cbv beta iota delta [GenQConc.dqn_dtor_decrement_under_mutex GenQConc.processif_putback_notifies GenQConc.processuntil_putback_notifies].
   all: repeat wg2.
   all: try gs_solve.
   all: try li_tac.
   all: try gend.
   all: try (lo_simpl; lia).
+  all: try (repeat match goal with A : gsame _ _ |- _ => let A3 := fresh "A3" in destruct A as (_ & _ & A3 & _ & _) end;
+            unfold GEnd in *; lo_simpl; lia).
 Qed.
 
 (* ---------- the ghost invariant over the shared state and all threads' locals ---------- *)
@@ -471,7 +473,7 @@ Proof.
     + destruct cl as [|c r].
       * cbn [fst snd lo]. split; [exact HG|exact I].
       * apply IH; [|apply all_calls_wg]. eapply GI_reset; [|exact HG]. exact HW.
-    + cbn [wgl] in HW. destruct i as [m|m|x|x|x| |timed|tt f0|r c u v|timed| | |];
+    + cbn [wgl] in HW. destruct i as [m|m|x|x|x| |timed|tt f0|r c u v|timed| | | |rr];
         try (cbn [fst snd lo]; split; [exact HG | exact HW]).
       * (* ILocal *)
         change (forall t sh, gstep sh l (fst (f0 t sh l)) (snd (f0 t sh l)) /\ LI (snd (f0 t sh l)) /\ wgl rest GEnd (snd (f0 t sh l))) in HW.
@@ -622,7 +624,7 @@ Proof.
     assert (Hdef : EInv (let '(sh2, th2) := match status th with TParked _ => (shs cfg, th) | _ => advance fuel t (shs cfg) th end in
                          mkCfg sh2 (set_th (ths cfg) t th2) (sched cfg) (dead cfg))).
     { apply perform_g_finish with (th := th); auto. rewrite Est, Ec. cbn [wgl]. exact HW. }
-    destruct i as [m|m|x|x|x| |timed|tt f|r c u v|timed| | |]; try exact Hdef.
+    destruct i as [m|m|x|x|x| |timed|tt f|r c u v|timed| | | |rr]; try exact Hdef.
     all: try destruct m; try destruct x.
     all: cbv beta iota zeta.
     all: try solve [apply perform_g_finish with (th := th); auto; cbn [status code lo]; try exact HW;
